@@ -2,12 +2,16 @@ SPECIFICATION Spec
 CONSTANTS
   Variants = {"best"}
   Relays = {1, 2, 3}
+  ProvSet <- MCProvMid
   Values = {0, 1, 2}
   CfgSet <- MCCfgOne
+  TableSet = {"A"}
   BuilderSet = {"std", "plus", "half"}
   AnswerSet <- MCAnswersLean
   Headers = {1, 2}
   MaxRounds = 1
   Keys = {1}
   MaxAuctions = 1
-INVARIANTS TypeOK WinnerIsArgmax OnlyEligibleWin ProvidersOfferedWinner NoWinnerIffNone ParticipationSound ArrivedConsidered CacheRight ServedRight
+  MaxOpen = 1
+  Deviation = "none"
+INVARIANTS TypeOK WinnerIsArgmax OnlyEligibleWin ProvidersOfferedWinner NoWinnerIffNone ParticipationSound ArrivedConsidered CacheRight ServedRight HistoryShape
